@@ -14,7 +14,7 @@ ENGINES = [
          kind_free_text="Kani proof harnesses (kani::any inputs, #[kani::unwind]) over the real leaf kernels of ciphercore-base (bytes.rs, slices.rs, broadcast.rs, random.rs, evaluator free functions), "
                         "built from /repo's working tree with the verif-hooks feature; failing harnesses are replayed natively with Kani's concrete playback before a VIOLATION is printed"),
     dict(name="graph-smt", path="driver/ + symg/",
-         serves_properties=["C01", "C02", "C04", "C05", "C06", "C07", "C08", "C16", "C17", "C18"],
+         serves_properties=["C01", "C02", "C03", "C04", "C05", "C06", "C07", "C08", "C16", "C17", "C18"],
          kind_free_text="Rust driver linked against /repo's current tree runs the real instantiate/inline/compile/optimize functions and dumps the term DAGs they build; "
                         "a Python interpreter turns each DAG 1:1 into z3 bit-vector terms (inputs, randomness, junk symbolic) and z3/cvc5 decide the property; models are replayed on the real evaluator"),
 ]
@@ -37,6 +37,13 @@ chk("C02", "graph-smt", "translation_validation",
     "in a three-party executor built on the real Evaluator::evaluate_node. Non-recipient queries must be sat (vacuity witness).",
     G_NOTE + " Execution model as stated in the property's observe_at (not stored in the repository).",
     "SMT (z3) three-view symbolic execution of the compiled graph with junk and per-party tapes universally quantified", "DESIGN.md §5 C02")
+
+chk("C03", "graph-smt", "other",
+    "Exact, bounded: for BIT-typed programs (and, xor, and-xor, and-and, majority, vector and, and-sum; owners with at least two distinct parties; 6 output sets; 3 inline modes) and each observer party, the view (inputs, own randomness, "
+    "PRF outputs under held keys, every value delivered at a Send(.,P) node, own output) is built from the real compile_context output in the three-view semantics with idealised PRFs; the unknown tape (<= 12 bits) is unrolled inside one SMT query that asks for "
+    "two other-party input vectors with the same output for the observer whose view-value counts differ. unsat = identical view distributions for every admissible pair. Wider types, shared inputs and larger tapes are outside the claim; solver models are not replayed by tape enumeration.",
+    G_NOTE + " PRF outputs idealised as independent uniform bits per (key term, counter); PRF key hand-over messages dropped as bare random draws (checked not to occur in other messages).",
+    "SMT (z3 QF_BV) exact tape counting over the real compiled graph's view terms", "DESIGN.md §5 C03, §11")
 
 chk("C04", "graph-smt", "other",
     "(a) For every generated compiled program (ring templates, Call/Iterate wrappers in all 3 inline modes, bit-level protocol templates that request several masks from one key: OT, Truncate2K, A2B/B2A, permutation/sort; both the staged pre-optimiser graph and the final compile_context output) "
@@ -105,9 +112,6 @@ chk("C18", "graph-smt", "other",
     "(the solver does not finish on the shuffle protocols even for 2 rows x 1 key bit). The plaintext Sort semantics is the interpreter's closed-form stable sort, validated against the real evaluator on every program.",
     G_NOTE, "SMT (z3 QF_BV) equivalence vs closed-form stable-sort / permutation spec; concrete differential for the compiled secure sort", "DESIGN.md §5 C18")
 
-_pending = "check not built yet in this session; see DESIGN.md for the plan"
-for p in ["C03"]:
-    NOT_APPLICABLE[p] = _pending
 NOT_APPLICABLE["C11"] = "API histories over Arc/AtomicRefCell/HashMap state with format!-built errors: not encodable (Kani: 580 s/15 GB on a 3-call concrete history); a hand model would not be the real code"
 NOT_APPLICABLE["C12"] = "serde_json/typetag parsing of several-hundred-byte strings followed by the graph-building API: out of reach of bit-precise symbolic execution; round-trip equality has no input to quantify besides the program"
 NOT_APPLICABLE["C15"] = ("between random.rs and the AES block function sits the `cipher` crate's generic block-mode machinery (GenericArray::generate loops of 16, ParBlocks closures); with the block function stubbed (aes::soft::fixslice::aes128_encrypt) "
